@@ -63,6 +63,9 @@ pub struct RefLc3 {
     pub frames: Vec<(u16, u16, u8)>,
     /// A10: RTI executed in user mode under ignore_privilege (no ISA meaning)
     pub saw_user_rti: bool,
+    /// C33 known-finding bookkeeping: KBDR reads attempted while the keyboard lock was held / DDR writes while the display lock was held
+    pub stale_kbdr_reads: u64,
+    pub dropped_ddr_writes: u64,
 }
 
 pub fn custom_value(addr: u16) -> u16 { 0xC0DE ^ addr }
@@ -76,7 +79,7 @@ impl RefLc3 {
             custom_ports: BTreeSet::new(), custom_log: vec![],
             iregs: BTreeMap::from([(0xFFFC, IReg::Psr), (0xFFFE, IReg::Mcr)]),
             real_traps: false, ignore_priv: false, instr_count: 0, depth: 0, cc_defined: true, log: vec![],
-            unspecified: BTreeSet::new(), instr_addr: 0, frames: vec![], saw_user_rti: false,
+            unspecified: BTreeSet::new(), instr_addr: 0, frames: vec![], saw_user_rti: false, stale_kbdr_reads: 0, dropped_ddr_writes: 0,
         }
     }
     pub fn mem(&self, a: u16) -> u16 { self.over.get(&a).copied().unwrap_or(self.base[a as usize]) }
@@ -111,7 +114,7 @@ impl RefLc3 {
                 let ready = !self.kb_locked && !self.kb_queue.is_empty();
                 Some(((ready as u16) << 15) | ((self.kb_ie as u16) << 14))
             } else if a == KBDR && self.kb_attached {
-                if self.kb_locked { None } else { self.kb_queue.pop_front().map(u16::from) } // A4: empty queue -> last value
+                if self.kb_locked { self.stale_kbdr_reads += 1; None } else { self.kb_queue.pop_front().map(u16::from) } // A4: empty queue -> last value
             } else if a == DSR && self.disp_attached {
                 Some(((!self.disp_locked) as u16) << 15)
             } else { None };
@@ -128,7 +131,7 @@ impl RefLc3 {
                 true
             } else if self.custom_ports.contains(&a) { self.custom_log.push((true, a, v)); true }
             else if a == KBSR && self.kb_attached { self.kb_ie = (v >> 14) & 1 != 0; true }
-            else if a == DDR && self.disp_attached { if self.disp_locked { false } else { self.disp.push(v as u8); true } }
+            else if a == DDR && self.disp_attached { if self.disp_locked { self.dropped_ddr_writes += 1; false } else { self.disp.push(v as u8); true } }
             else { false }
         } else { true };
         if accepted {
